@@ -78,6 +78,7 @@ def build() -> Check:
             "within a stated tolerance of 4*2^-53 relative (the documented computation is one float multiplication); energies = reg*10 "
             "exactly; others unchanged; texts verbatim; exact key set; manufacturer 'Kamstrup'; frame clock = APDU date-time, body clock = list "
             "element. Non-trivial = >=1 non-zero current and (>=1 non-zero energy or a 10-second list). CT and non-CT classes are counted."
+            ' Near misses include 30 meter types with a blank / tab / line end / NUL / sign / quote / digit in front of 685.'
         ),
         assumptions=[
             "Every payload is decoded twice; the caller modifies the first returned dictionary before the second call (results must not be shared objects).",
